@@ -120,11 +120,26 @@ func c10R1(p *engine.Prog, r *engine.Report, consts map[int64]string, nob map[in
 		}
 		ok := len(vals) == 1 && vals[want]
 		r.Check(ok, "C10-R1", "setNewIdentitiesAttributes|status "+name+" => SetValidated("+want+")", p.Pos(f.Pos()), "the only reachable registration value", "status "+name+" is registered as validated="+joinKeys(vals)+" (ledger says "+want+")")
+		if nob[k] {
+			// the registry record of a (re)validated identity is (re)created: the ledger's delegation is copied
+			// into it on every validated arm (sibling agreement of the arms)
+			hasDel := false
+			for _, c := range callsTo(f, "core/state.IdentityStateDB.SetDelegatee") {
+				if !reach[c.Block()] {
+					continue
+				}
+				// the value comes from the ledger identity's Delegatee
+				if sliceCallOn(engine.Params(c)[1], nil, "core/state.Identity.Delegatee") {
+					hasDel = true
+				}
+			}
+			r.Check(hasDel, "C10-R1", "setNewIdentitiesAttributes|status "+name+" => registry delegatee copied from the ledger", p.Pos(f.Pos()), "SetDelegatee(addr, *identity.Delegatee()) when present", "a "+name+" identity is registered as validated without its ledger delegation: an identity re-validated after Suspended/Zombie is counted as a stand-alone validator while the ledger still delegates it to a pool (pool size one short)")
+		}
 		if !nob[k] {
 			r.Check(setOnlineFalse && !setOnlineTrue, "C10-R1", "setNewIdentitiesAttributes|status "+name+" => SetOnline(false) unless pool", p.Pos(f.Pos()), "non-validated identities are switched offline", "a non-validated status ("+name+") can stay online")
 		}
 	}
-	r.Floor("C10-R1", 14, "9 statuses + 6 offline")
+	r.Floor("C10-R1", 17, "9 statuses + 6 offline + 3 delegations")
 }
 
 func c10R2(p *engine.Prog, r *engine.Report) {
